@@ -55,7 +55,9 @@ Definition big_list (g : bigspec) (k : N) (j : N) (p : sty * sty * string) : lis
   let '(_, lt, name) := p in
   let c := big_corners g k in
   if (String.eqb name "vertex_indices" || String.eqb name "vertex_index")%bool then
-    map (fun m => bmix (bg_seed g) k (2000 + m) mod bg_nv g) (nseq c)
+    (* even corners anywhere, odd corners among the last 4 vertices (so that large vertex numbers occur) *)
+    map (fun m => let h := bmix (bg_seed g) k (2000 + m) in
+                  if N.even m then h mod bg_nv g else bg_nv g - 1 - h mod N.min (bg_nv g) 4) (nseq c)
   else if String.eqb name "texcoord" then
     map (fun m => bword lt (bg_seed g) k (3000 + m)) (nseq (2 * c))
   else
